@@ -64,27 +64,120 @@ def parse_array(text, name):
     return vals[:-1]
 
 
+EXTRACT_CPP = r"""
+// Extraction by EXECUTION: the translation unit under test is included textually, so that its file-local tables are
+// visible, and every classification function is evaluated on the whole 18-bit PGN space.
+#include "NMEA2000.cpp"
+#include <stdio.h>
+typedef bool (*fn_t)(unsigned long);
+static void sweep(const char *name, fn_t f) {
+  printf("%s:", name);
+  for (unsigned long p = 0; p < (1UL << 18); p++) if (f(p)) printf(" %lu", p);
+  printf("\n");
+}
+static void arr(const char *name, const unsigned long *a) {
+  printf("%s:", name);
+  for (int i = 0; a[i] != 0 && i < 4096; i++) printf(" %lu", a[i]);
+  printf("\n");
+}
+int main() {
+  sweep("IsSingleFrameSystemMessage", IsSingleFrameSystemMessage);
+  sweep("IsFastPacketSystemMessage", IsFastPacketSystemMessage);
+  sweep("IsDefaultSingleFrameMessage", IsDefaultSingleFrameMessage);
+  sweep("IsMandatoryFastPacketMessage", IsMandatoryFastPacketMessage);
+  sweep("IsDefaultFastPacketMessage", IsDefaultFastPacketMessage);
+  sweep("IgnoreBroadcastISORequest", IgnoreBroadcastISORequest);
+  sweep("IsProprietaryFastPacketMessage", IsProprietaryFastPacketMessage);
+  arr("DefTransmitMessages", DefTransmitMessages);
+  arr("DefReceiveMessages", DefReceiveMessages);
+  return 0;
+}
+"""
+
+
+def extract_by_execution(src):
+    """compile NMEA2000.cpp (included textually) with a sweeping main, linked with the sources it depends on"""
+    import hashlib, tempfile
+    h = hashlib.sha256()
+    deps = ['N2kMsg.cpp', 'N2kStream.cpp', 'N2kTimer.cpp', 'N2kGroupFunction.cpp', 'N2kGroupFunctionDefaultHandlers.cpp', 'N2kMessages.cpp']
+    for fn in sorted(os.listdir(src)):
+        if fn.endswith(('.h', '.tpp')) or fn == 'NMEA2000.cpp' or fn in deps:
+            h.update(fn.encode()); h.update(open(os.path.join(src, fn), 'rb').read())
+    h.update(EXTRACT_CPP.encode())
+    cache_dir = os.path.join(os.path.dirname(os.path.abspath(__file__)), '..', '..', 'build', 'translate')
+    os.makedirs(cache_dir, exist_ok=True)
+    cache = os.path.join(cache_dir, 'pgn_tables_%s.txt' % h.hexdigest()[:24])
+    if os.path.exists(cache):
+        return open(cache).read()
+    with tempfile.TemporaryDirectory() as td:
+        cpp = os.path.join(td, 'extract.cpp')
+        open(cpp, 'w').write(EXTRACT_CPP)
+        exe = os.path.join(td, 'extract')
+        r = subprocess.run(['g++', '-std=c++11', '-O0', '-w', '-I' + src, cpp] + [os.path.join(src, d) for d in deps] + ['-o', exe],
+                           stdout=subprocess.PIPE, stderr=subprocess.STDOUT, text=True)
+        if r.returncode != 0:
+            raise RuntimeError('extraction program does not compile: ' + r.stdout[-600:])
+        r = subprocess.run([exe], stdout=subprocess.PIPE, stderr=subprocess.PIPE, text=True, timeout=120)
+        if r.returncode != 0:
+            raise RuntimeError('extraction program failed: ' + r.stderr[-300:])
+    tmp = cache + '.%d' % os.getpid()
+    open(tmp, 'w').write(r.stdout)
+    os.replace(tmp, cache)
+    return r.stdout
+
+
+def ranges_of(vals):
+    out = []
+    for v in vals:
+        if out and out[-1][1] + 1 == v:
+            out[-1][1] = v
+        else:
+            out.append([v, v])
+    return out
+
+
 def run(src, gendir):
-    text = preprocess(src)
-    out = ['/-! GENERATED by tools/translators/pgn_tables.py from src/NMEA2000.cpp on every run. Do not edit. -/',
-           'namespace N2k.Gen', '']
+    """Primary route: execution of the source's own functions over all 2^18 PGNs (robust against any refactoring).
+    Secondary: the textual reading (regex over the preprocessed source) must agree wherever it still parses."""
+    got = {}
+    for line in extract_by_execution(src).split('\n'):
+        if ':' in line:
+            k, v = line.split(':', 1)
+            got[k] = [int(x) for x in v.split()]
+    for k in SWITCH_FUNCS + ARRAYS + ['IsProprietaryFastPacketMessage']:
+        if k not in got:
+            raise RuntimeError('extraction gave no table for ' + k)
+    textual = {'agree': 0, 'unparsed': []}
+    try:
+        text = preprocess(src)
+    except Exception:
+        text = None
+    for f in SWITCH_FUNCS:
+        try:
+            vals = parse_switch(body_of(text, r'bool %s\s*\(\s*unsigned long \w+\s*\)\s*\{' % f), f)
+            if sorted(set(vals)) != sorted(got[f]):
+                raise RuntimeError('textual and executed readings of %s differ' % f)
+            textual['agree'] += 1
+        except RuntimeError as e:
+            if 'differ' in str(e):
+                raise
+            textual['unparsed'].append(f)
+        except Exception:
+            textual['unparsed'].append(f)
+    out = ['/-! GENERATED by tools/translators/pgn_tables.py from src/NMEA2000.cpp on every run (the functions are executed on all',
+           '2^18 PGNs, the arrays are read to their terminator). Do not edit. -/', 'namespace N2k.Gen', '']
     n_items = 0
     for f in SWITCH_FUNCS:
-        body = body_of(text, r'bool %s\s*\(\s*unsigned long \w+\s*\)\s*\{' % f)
-        vals = parse_switch(body, f)
-        n_items += len(vals)
-        out.append('def %s : List Nat := [%s]' % (lname(f), ', '.join(map(str, vals))))
+        n_items += len(got[f])
+        out.append('def %s : List Nat := [%s]' % (lname(f), ', '.join(map(str, got[f]))))
     for a in ARRAYS:
-        vals = parse_array(text, a)
-        n_items += len(vals)
-        out.append('def %s : List Nat := [%s]' % (lname(a), ', '.join(map(str, vals))))
-    body = re.sub(r'\s+', ' ', body_of(text, r'bool IsProprietaryFastPacketMessage\s*\(\s*unsigned long \w+\s*\)\s*\{')).strip()
-    m = re.fullmatch(r'return \( ?PGN ?== ?(\w+) ?\) \|\| \( ?(\w+) ?<= ?PGN && PGN ?<= ?(\w+) ?\);', body)
-    if not m:
-        raise RuntimeError('IsProprietaryFastPacketMessage: unexpected expression: ' + body)
-    a, lo, hi = num(m.group(1)), num(m.group(2)), num(m.group(3))
-    out.append('def isProprietaryFastPacketMessage (pgn : Nat) : Bool := pgn == %d || (%d ≤ pgn && pgn ≤ %d)' % (a, lo, hi))
-    # constants used by the send / receive models
+        n_items += len(got[a])
+        out.append('def %s : List Nat := [%s]' % (lname(a), ', '.join(map(str, got[a]))))
+    rg = ranges_of(got['IsProprietaryFastPacketMessage'])
+    n_items += len(rg)
+    out.append('/-- maximal ranges of PGNs (below 2^18) for which `IsProprietaryFastPacketMessage` answers true -/')
+    out.append('def proprietaryFastPacketRanges : List (Nat × Nat) := [%s]' % ', '.join('(%d, %d)' % (a, b) for a, b in rg))
+    out.append('def isProprietaryFastPacketMessage (pgn : Nat) : Bool := proprietaryFastPacketRanges.any fun r => r.1 ≤ pgn && pgn ≤ r.2')
     consts = {}
     for c, rx in [('maxCanBusAddress', r'#define\s+N2kMaxCanBusAddress\s+(\w+)'), ('nullCanBusAddress', r'#define\s+N2kNullCanBusAddress\s+(\w+)')]:
         hdr = open(os.path.join(src, 'NMEA2000.h')).read() + open(os.path.join(src, 'N2kMsg.h')).read() + open(os.path.join(src, 'N2kDef.h')).read()
@@ -99,7 +192,8 @@ def run(src, gendir):
     new = '\n'.join(out)
     if not os.path.exists(path) or open(path).read() != new:
         open(path, 'w').write(new)
-    return {'items_translated': n_items, 'tables': len(SWITCH_FUNCS) + len(ARRAYS) + 1, 'fallbacks': 0, 'obligations': 0}
+    return {'items_translated': n_items, 'tables': len(SWITCH_FUNCS) + len(ARRAYS) + 1, 'fallbacks': 0, 'obligations': 0,
+            'method': 'execution over 2^18 PGNs', 'textual_cross_check': textual}
 
 
 if __name__ == '__main__':
